@@ -368,7 +368,10 @@ class DeduplicateDecorator(AsyncDecorator):
             task = self.fn.asynq(*args, **kwargs)
 
             def callback(task):
-                self.tasks.pop(cache_key, None)
+                # only forget our own entry: after dirty() the key may already belong to a
+                # newer task that is still in flight
+                if self.tasks.get(cache_key) is task:
+                    del self.tasks[cache_key]
 
             self.tasks[cache_key] = task
             task.on_computed.subscribe(callback)
